@@ -390,6 +390,79 @@ func init() {
 			}
 		}
 		e.close()
-		c.close([]string{"relay:case", "relay:with-interim", "relay:prefix-lookalike", "relay:repeated-headers", "relay:concurrent-body", "relay:upstream-dies-mid-body", "relay:upgrade"})
+		// An upstream with a configured timeout (documented: the time allowed for the upstream's RESPONSE HEADERS) over a kept-alive,
+		// re-used connection: a body that streams for longer than the timeout, and a request sent on a connection that is almost
+		// `timeout` old, are relayed completely — the timeout is per request, not a lifetime of the pooled connection
+		{
+			slow := httptest.NewServer(http.HandlerFunc(func(w http.ResponseWriter, r *http.Request) {
+				switch {
+				case strings.HasPrefix(r.URL.Path, "/slow-body"):
+					w.Header().Set("Content-Type", "text/plain")
+					w.WriteHeader(200)
+					for i := 0; i < 12; i++ {
+						fmt.Fprintf(w, "chunk-%02d;", i)
+						if f, ok := w.(http.Flusher); ok {
+							f.Flush()
+						}
+						time.Sleep(150 * time.Millisecond)
+					}
+				case strings.HasPrefix(r.URL.Path, "/late-headers"):
+					io.Copy(io.Discard, r.Body)
+					time.Sleep(400 * time.Millisecond) // well inside the timeout
+					w.Write([]byte("late-but-in-time"))
+				default:
+					w.Write([]byte("fast"))
+				}
+			}))
+			tmo := options.Duration(1200 * time.Millisecond)
+			et, err := newEnv(c, proxyCfg{InjectRequest: defaultInject(), Upstreams: []options.Upstream{{ID: "slow", Path: "/", URI: slow.URL, Timeout: &tmo}}})
+			if err != nil {
+				c.violation("HARNESS", "env (upstream timeout): "+err.Error(), nil)
+			} else {
+				frontT := httptest.NewServer(et.proxy)
+				ckT := et.issueSessionCookie(et.sessionFor(u, 30*time.Second))
+				cl := &http.Client{Timeout: 15 * time.Second}
+				get := func(method, path, body string) (int, string, error) {
+					req, _ := http.NewRequest(method, frontT.URL+path, strings.NewReader(body))
+					req.Header.Set("Cookie", ckT)
+					resp, err := cl.Do(req)
+					if err != nil {
+						return 0, "", err
+					}
+					defer resp.Body.Close()
+					b, rerr := io.ReadAll(resp.Body)
+					return resp.StatusCode, string(b), rerr
+				}
+				for round := 0; round < 2; round++ {
+					t0 := time.Now()
+					get("GET", "/fast", "") // opens (round 0) / re-uses the pooled upstream connection
+					time.Sleep(300 * time.Millisecond)
+					st, body, err := get("GET", "/slow-body", "") // streams for 1.8 s: crosses every multiple of the timeout
+					want := ""
+					for i := 0; i < 12; i++ {
+						want += fmt.Sprintf("chunk-%02d;", i)
+					}
+					c.casen(fmt.Sprintf("relay|timeout|slow-body|%d", round), fmt.Sprintf("%d %d bytes err=%v", st, len(body), err))
+					c.count("relay:upstream-timeout")
+					if err != nil || st != 200 || body != want {
+						c.violation("C17", "an upstream response whose headers arrived in time but whose body streams for longer than the configured upstream timeout was cut off / not relayed unchanged",
+							map[string]interface{}{"upstream_timeout": "1.2s", "body_duration": "1.8s", "status": st, "bytes_received": len(body), "bytes_sent": len(want), "error": fmt.Sprint(err), "connection_age_at_request": time.Since(t0).String()})
+					}
+					// a POST on the re-used connection, answered 400 ms later
+					st, body, err = get("POST", "/late-headers", strings.Repeat("p", 2000))
+					c.casen(fmt.Sprintf("relay|timeout|late-headers|%d", round), fmt.Sprintf("%d %q err=%v", st, body, err))
+					c.count("relay:upstream-timeout")
+					if err != nil || st != 200 || body != "late-but-in-time" {
+						c.violation("C17", "a request on a re-used upstream connection, answered well inside the configured upstream timeout, was not relayed (error page instead of the upstream's answer)",
+							map[string]interface{}{"upstream_timeout": "1.2s", "upstream_answered_after": "400ms", "status": st, "body": truncate(body, 80), "error": fmt.Sprint(err)})
+					}
+					time.Sleep(time.Duration(200+300*round) * time.Millisecond)
+				}
+				frontT.Close()
+				et.close()
+			}
+			slow.Close()
+		}
+		c.close([]string{"relay:case", "relay:with-interim", "relay:prefix-lookalike", "relay:repeated-headers", "relay:concurrent-body", "relay:upstream-dies-mid-body", "relay:upgrade", "relay:upstream-timeout"})
 	})
 }
